@@ -72,6 +72,7 @@ type Options struct {
 	ForcedSchedule []int
 	CrossSolvers   []string
 	Seed           int
+	DelayBound     bool
 }
 
 type Violation struct {
